@@ -29,6 +29,22 @@ type btpCase struct {
 	bad  bool // documented as invalid (parameters_literal.go getters, NewParametersFromLiteral doc)
 }
 
+// bootLevel: what is demanded of an accepted case beyond "keys and evaluator without panic": 1 = one bootstrap at the
+// announced level and scale, 2 = in addition the message within 2^-10 (nearest legal neighbours of a documented
+// constraint that are sensible circuits). Cases not listed: 0.
+// refusalAlsoFine: accepted => must bootstrap (bootLevel), but a clean refusal is an equally documented answer
+// (no auxiliary prime at all: the documentation promises neither).
+var refusalAlsoFine = map[string]bool{"LogP-empty-noencaps": true}
+
+var bootLevel = map[string]int{
+	"ordinary": 2, "LogN=residual": 2, "LogSlots=1": 2, "LogSlots=LogN-1": 2, "LogSlots=nil": 2,
+	"C2S-depth=LogSlots": 2, "S2C-depth=LogSlots": 2, "S2C-depth=LogSlots-shared-prime": 1, "C2S-depth=1": 2, "S2C-depth=1": 2,
+	"EphemeralSecretWeight=0": 2, "EphemeralSecretWeight=1": 2, "EphemeralSecretWeight=N": 1,
+	"EvalModLogScale=60": 2, "EvalModLogScale=0": 0, "LogMessageRatio=63": 0, "LogMessageRatio=0": 1,
+	"K=1": 1, "DoubleAngle=0": 1, "DoubleAngle=3": 2, "Mod1InvDegree=0": 2, "Mod1InvDegree=1": 1,
+	"LogP-empty-noencaps": 1, "LogP-three": 2, "ci-residual-LogN=residual+1": 1,
+}
+
 func btpCases() []btpCase {
 	P := utils.Pointy[int]
 	it := func(prec []float64, reserved int) *bootstrapping.IterationsParameters {
@@ -103,10 +119,11 @@ func btpCases() []btpCase {
 		{"EvalModLogScale=61", func(r *R, b *B) { b.EvalModLogScale = P(61) }, true},
 		{"LogMessageRatio=-1", func(r *R, b *B) { b.LogMessageRatio = P(-1) }, true},
 		{"LogMessageRatio=0", func(r *R, b *B) { b.LogMessageRatio = P(0) }, false},
-		{"LogMessageRatio=64#LogMessageRatio>=64", func(r *R, b *B) { b.LogMessageRatio = P(64) }, false},
-		{"LogMessageRatio=70#LogMessageRatio>=64", func(r *R, b *B) { b.LogMessageRatio = P(70) }, false},
+		{"LogMessageRatio=63", func(r *R, b *B) { b.LogMessageRatio = P(63) }, false},
+		{"LogMessageRatio=64#LogMessageRatio>=64", func(r *R, b *B) { b.LogMessageRatio = P(64) }, true},
+		{"LogMessageRatio=70#LogMessageRatio>=64", func(r *R, b *B) { b.LogMessageRatio = P(70) }, true},
 		{"K=-1", func(r *R, b *B) { b.K = P(-1) }, true},
-		{"K=0", func(r *R, b *B) { b.K = P(0) }, false},
+		{"K=0", func(r *R, b *B) { b.K = P(0) }, true},
 		{"K=1", func(r *R, b *B) { b.K = P(1) }, false},
 		{"K=1000(degree-too-small)", func(r *R, b *B) { b.K = P(1000) }, false},
 		{"Mod1Degree=-1", func(r *R, b *B) { b.Mod1Degree = P(-1) }, true},
@@ -120,18 +137,32 @@ func btpCases() []btpCase {
 		{"Mod1InvDegree=2(even)", func(r *R, b *B) { b.Mod1InvDegree = P(2) }, false},
 		{"Mod1Type=7", func(r *R, b *B) { b.Mod1Type = mod1.Type(7) }, false},
 		// DFT splits
+		// both sides of "depth > LogSlots" (matrices, not levels, are counted), for both transforms
+		{"C2S-depth=LogSlots", func(r *R, b *B) { b.CoeffsToSlotsFactorizationDepthAndLogScales = [][]int{{56}, {56}, {56}} }, false},
+		{"S2C-depth=LogSlots", func(r *R, b *B) { b.SlotsToCoeffsFactorizationDepthAndLogScales = [][]int{{39}, {39}, {39}} }, false},
+		{"S2C-depth=LogSlots-shared-prime", func(r *R, b *B) { b.SlotsToCoeffsFactorizationDepthAndLogScales = [][]int{{30}, {30, 30}} }, false},
+		{"C2S-depth=LogSlots-shared-prime", func(r *R, b *B) { b.CoeffsToSlotsFactorizationDepthAndLogScales = [][]int{{56}, {28, 28}} }, false},
+		{"S2C-depth=LogSlots+1-shared-prime", func(r *R, b *B) { b.SlotsToCoeffsFactorizationDepthAndLogScales = [][]int{{30, 30}, {30, 30}} }, true},
+		{"C2S-depth=LogSlots+1-shared-prime", func(r *R, b *B) { b.CoeffsToSlotsFactorizationDepthAndLogScales = [][]int{{28, 28}, {28, 28}} }, true},
+		{"C2S-depth=1", func(r *R, b *B) { b.CoeffsToSlotsFactorizationDepthAndLogScales = [][]int{{56}} }, false},
+		{"S2C-depth=1", func(r *R, b *B) { b.SlotsToCoeffsFactorizationDepthAndLogScales = [][]int{{39}} }, false},
+		{"EvalModLogScale=60", func(r *R, b *B) { b.EvalModLogScale = P(60) }, false},
+		{"DoubleAngle=0", func(r *R, b *B) { b.DoubleAngle = P(0) }, false},
+		{"DoubleAngle=3", func(r *R, b *B) { b.DoubleAngle = P(3) }, false},
+		{"Mod1InvDegree=0", func(r *R, b *B) { b.Mod1InvDegree = P(0) }, false},
 		{"C2S-depth>LogSlots", func(r *R, b *B) { b.CoeffsToSlotsFactorizationDepthAndLogScales = [][]int{{56}, {56}, {56}, {56}} }, true},
 		{"S2C-depth>LogSlots", func(r *R, b *B) { b.SlotsToCoeffsFactorizationDepthAndLogScales = [][]int{{39}, {39}, {39}, {39}} }, true},
 		{"S2C-empty", func(r *R, b *B) { b.SlotsToCoeffsFactorizationDepthAndLogScales = [][]int{} }, false},
 		{"S2C-empty-level", func(r *R, b *B) { b.SlotsToCoeffsFactorizationDepthAndLogScales = [][]int{{}, {39}} }, false},
 		{"S2C-scale-0", func(r *R, b *B) { b.SlotsToCoeffsFactorizationDepthAndLogScales = [][]int{{0}} }, false},
-		{"C2S-empty", func(r *R, b *B) { b.CoeffsToSlotsFactorizationDepthAndLogScales = [][]int{} }, false},
+		{"C2S-empty", func(r *R, b *B) { b.CoeffsToSlotsFactorizationDepthAndLogScales = [][]int{} }, true},
 		{"C2S-empty-level", func(r *R, b *B) { b.CoeffsToSlotsFactorizationDepthAndLogScales = [][]int{{}, {56}} }, false},
 		{"C2S-scale-0", func(r *R, b *B) { b.CoeffsToSlotsFactorizationDepthAndLogScales = [][]int{{0}} }, false},
 		{"C2S-scale-62", func(r *R, b *B) { b.CoeffsToSlotsFactorizationDepthAndLogScales = [][]int{{62}} }, false},
 		{"C2S-scale-negative", func(r *R, b *B) { b.CoeffsToSlotsFactorizationDepthAndLogScales = [][]int{{-5}} }, false},
 		// auxiliary primes
-		{"LogP-empty", func(r *R, b *B) { b.LogP = []int{} }, false},
+		{"LogP-empty", func(r *R, b *B) { b.LogP = []int{} }, true},
+		{"LogP-empty-noencaps", func(r *R, b *B) { b.LogP = []int{}; b.EphemeralSecretWeight = P(0) }, false},
 		{"LogP-nil(default)", func(r *R, b *B) { b.LogP = nil }, false},
 		{"LogP-0", func(r *R, b *B) { b.LogP = []int{0} }, false},
 		{"LogP-62", func(r *R, b *B) { b.LogP = []int{62} }, false},
@@ -175,6 +206,9 @@ func btpScenario(k btpCase) engine.Scenario {
 		case r.err != nil:
 			c.Cover("rejected", "accept/btp")
 			c.Outcome(name, "rejected")
+			if bootLevel[k.name] > 0 && !refusalAlsoFine[k.name] {
+				c.Fail("C19/accept/btp/legal-literal-refused@"+class, "%s: %v", tag, r.err)
+			}
 			return
 		}
 		c.Cover("accepted", "accept/btp")
@@ -214,30 +248,70 @@ func btpScenario(k btpCase) engine.Scenario {
 			eval, err := bootstrapping.NewEvaluator(bp, evk)
 			if err != nil {
 				outcome = "evaluator refused: " + err.Error()
+				if bootLevel[k.name] > 0 {
+					return fmt.Errorf("NewEvaluator refuses a legal literal: %w", err)
+				}
 				return nil
 			}
 			outcome = "evaluator built"
-			if k.name != "ordinary" {
+			boot := bootLevel[k.name]
+			if boot == 0 {
 				return nil
 			}
-			// the ordinary literal must work end to end (sanity of the family itself)
+			// nearest legal neighbours of the documented constraints must work end to end
+			logSlots := bp.LogMaxSlots()
+			if m := res.LogMaxSlots(); logSlots > m {
+				logSlots = m
+			}
 			ecd := ckks.NewEncoder(res)
 			pt := ckks.NewPlaintext(res, 0)
-			pt.LogDimensions.Cols = 3
-			v := []complex128{0.5, -0.25i, 0.75 - 0.5i, -1, 1i, 0.125, -0.375 + 0.25i, 0.9}
-			if err := ecd.Encode(v, pt); err != nil {
+			pt.LogDimensions.Cols = logSlots
+			n := 1 << logSlots
+			v := make([]complex128, n)
+			for i := range v {
+				v[i] = complex(1-2*float64(i+1)/float64(n+1), 0)
+				if res.RingType() == ring.Standard {
+					v[i] += complex(0, float64(i%7)/8-0.375)
+				}
+			}
+			if res.RingType() == ring.ConjugateInvariant {
+				re := make([]float64, n)
+				for i := range re {
+					re[i] = real(v[i])
+				}
+				err = ecd.Encode(re, pt)
+			} else {
+				err = ecd.Encode(v, pt)
+			}
+			if err != nil {
 				return err
 			}
 			ct, err := rlwe.NewEncryptor(res, sk).EncryptNew(pt)
 			if err != nil {
 				return err
 			}
-			out, err := eval.Bootstrap(ct)
+			outs, err := eval.BootstrapMany([]rlwe.Ciphertext{*ct})
 			if err != nil {
-				return err
+				return fmt.Errorf("bootstrap: %w", err)
 			}
-			got := make([]complex128, 8)
-			if err := ecd.Decode(rlwe.NewDecryptor(res, sk).DecryptNew(out), got); err != nil {
+			out := &outs[0]
+			if out.Level() != eval.OutputLevel() || !out.Scale.Equal(res.DefaultScale()) {
+				return fmt.Errorf("output at level %d (announced %d), scale 2^%.3f (default 2^%.3f)", out.Level(), eval.OutputLevel(), out.Scale.Log2(), res.DefaultScale().Log2())
+			}
+			outcome = "bootstrapped (level and scale as announced)"
+			if boot < 2 {
+				return nil
+			}
+			got := make([]complex128, n)
+			if res.RingType() == ring.ConjugateInvariant {
+				re := make([]float64, n)
+				if err := ecd.Decode(rlwe.NewDecryptor(res, sk).DecryptNew(out), re); err != nil {
+					return err
+				}
+				for i := range re {
+					got[i] = complex(re[i], 0)
+				}
+			} else if err := ecd.Decode(rlwe.NewDecryptor(res, sk).DecryptNew(out), got); err != nil {
 				return err
 			}
 			for i := range v {
@@ -254,7 +328,7 @@ func btpScenario(k btpCase) engine.Scenario {
 		case s.panicked != nil:
 			c.Fail("C19/accept/btp/panic-after-acceptance@"+class, "%s: accepted, then %v", tag, s)
 		case s.err != nil:
-			c.Fail("C19/accept/btp/ordinary-literal-does-not-bootstrap", "%s: %v", tag, s.err)
+			c.Fail("C19/accept/btp/legal-literal-does-not-bootstrap@"+class, "%s: %v", tag, s.err)
 		}
 		c.Outcome(name, "accepted", outcome)
 		c.Note("%s: %s", tag, outcome)
@@ -285,5 +359,109 @@ func btpScenarios(tier string) []engine.Scenario {
 	for _, k := range btpCases() {
 		scs = append(scs, btpScenario(k))
 	}
+	for _, ls := range []int{1, 2, 3, 7} {
+		scs = append(scs, btpDefaultsScenario(ls))
+	}
 	return scs
+}
+
+// Defaults: an optional field set explicitly to the value the documentation gives as its default must yield parameters
+// Equal to the ones obtained with the field left nil (and must not be refused), for several LogSlots (the DFT defaults
+// depend on it: min(4, LogSlots) x 56 bits and min(3, LogSlots) x 39 bits).
+func btpDefaultsScenario(logSlots int) engine.Scenario {
+	name := fmt.Sprintf("accept/btp-defaults/s%d", logSlots)
+	P := utils.Pointy[int]
+	rep := func(n, v int) (r [][]int) {
+		for i := 0; i < n; i++ {
+			r = append(r, []int{v})
+		}
+		return
+	}
+	type B = bootstrapping.ParametersLiteral
+	fields := []struct {
+		name string
+		set  func(b *B, nilParams bootstrapping.Parameters)
+	}{
+		{"LogSlots=LogN-1(when-unset)", nil}, // handled below: only meaningful for the LogN-1 base
+		{"CoeffsToSlots=min(4,LogSlots)x56", func(b *B, _ bootstrapping.Parameters) {
+			b.CoeffsToSlotsFactorizationDepthAndLogScales = rep(utils.Min(bootstrapping.DefaultCoeffsToSlotsFactorizationDepth, logSlots), bootstrapping.DefaultCoeffsToSlotsLogScale)
+		}},
+		{"SlotsToCoeffs=min(3,LogSlots)x39", func(b *B, _ bootstrapping.Parameters) {
+			b.SlotsToCoeffsFactorizationDepthAndLogScales = rep(utils.Min(bootstrapping.DefaultSlotsToCoeffsFactorizationDepth, logSlots), bootstrapping.DefaultSlotsToCoeffsLogScale)
+		}},
+		{"EvalModLogScale=60", func(b *B, _ bootstrapping.Parameters) { b.EvalModLogScale = P(bootstrapping.DefaultEvalModLogScale) }},
+		{"EphemeralSecretWeight=32", func(b *B, _ bootstrapping.Parameters) {
+			b.EphemeralSecretWeight = P(bootstrapping.DefaultEphemeralSecretWeight)
+		}},
+		{"LogMessageRatio=8", func(b *B, _ bootstrapping.Parameters) { b.LogMessageRatio = P(bootstrapping.DefaultLogMessageRatio) }},
+		{"K=16", func(b *B, _ bootstrapping.Parameters) { b.K = P(bootstrapping.DefaultK) }},
+		{"Mod1Degree=30", func(b *B, _ bootstrapping.Parameters) { b.Mod1Degree = P(bootstrapping.DefaultMod1Degree) }},
+		{"DoubleAngle=3", func(b *B, _ bootstrapping.Parameters) { b.DoubleAngle = P(bootstrapping.DefaultDoubleAngle) }},
+		{"Mod1InvDegree=0", func(b *B, _ bootstrapping.Parameters) { b.Mod1InvDegree = P(bootstrapping.DefaultMod1InvDegree) }},
+		{"Mod1Type=CosDiscrete", func(b *B, _ bootstrapping.Parameters) { b.Mod1Type = bootstrapping.DefaultMod1Type }},
+		{"Xs=DefaultXs", func(b *B, _ bootstrapping.Parameters) { b.Xs = bootstrapping.DefaultXs }},
+		{"Xe=DefaultXe", func(b *B, _ bootstrapping.Parameters) { b.Xe = bootstrapping.DefaultXe }},
+		{"LogP=61xfloor(sqrt(#Q))", func(b *B, p0 bootstrapping.Parameters) {
+			n := utils.Max(1, int(math.Sqrt(float64(p0.BootstrappingParameters.QCount()))))
+			b.LogP = make([]int, n)
+			for i := range b.LogP {
+				b.LogP[i] = 61
+			}
+		}},
+		{"all-of-the-above", nil},
+	}
+	return engine.Scenario{Name: name, Bound: -1, Fn: func(c *engine.Chooser) {
+		fi := c.Choose(len(fields), "field")
+		f := fields[fi]
+		uni.Seed(c, name, f.name)
+		res, err := ckks.NewParametersFromLiteral(ckks.ParametersLiteral{LogN: 7, LogNthRoot: 9, LogQ: []int{60, 40}, LogP: []int{61}, LogDefaultScale: 40, Xs: ring.Ternary{H: 32}})
+		if err != nil {
+			panic("harness: " + err.Error())
+		}
+		base := B{LogN: P(8), LogSlots: P(logSlots)}
+		if fi == 0 {
+			if logSlots != 7 {
+				c.Skip("LogSlots default is LogN-1")
+				return
+			}
+			base.LogSlots = nil
+		}
+		p0, err := bootstrapping.NewParametersFromLiteral(res, base)
+		if err != nil {
+			c.Fail("C19/accept/btp-defaults/all-default-literal-refused", "LogSlots=%d: %v", logSlots, err)
+			return
+		}
+		explicit := base
+		switch {
+		case fi == 0:
+			explicit.LogSlots = P(7)
+		case f.set == nil: // all
+			for _, g := range fields {
+				if g.set != nil {
+					g.set(&explicit, p0)
+				}
+			}
+		default:
+			f.set(&explicit, p0)
+		}
+		c.Cover("btp-defaults", f.name)
+		var p1 bootstrapping.Parameters
+		r := guarded(name+f.name, func() (e error) { p1, e = bootstrapping.NewParametersFromLiteral(res, explicit); return })
+		switch {
+		case r.hung || r.panicked != nil:
+			c.Fail("C19/accept/btp-defaults/panic-or-hang@"+f.name, "LogSlots=%d %s: %v", logSlots, describeBtp(explicit), r)
+		case r.err != nil:
+			c.Fail("C19/accept/btp-defaults/documented-default-refused@"+f.name, "LogSlots=%d %s: %v", logSlots, describeBtp(explicit), r.err)
+		case !p0.Equal(&p1) || !p1.Equal(&p0):
+			c.Fail("C19/accept/btp-defaults/explicit-default-differs-from-nil@"+f.name, "LogSlots=%d: %s gives parameters that are not Equal to the nil-field ones", logSlots, describeBtp(explicit))
+		default:
+			// BitConsumption is documented on the literal: same answer for both spellings
+			a, ea := base.BitConsumption(logSlots)
+			b, eb := explicit.BitConsumption(logSlots)
+			if (ea == nil) != (eb == nil) || a != b {
+				c.Fail("C19/accept/btp-defaults/BitConsumption-differs@"+f.name, "LogSlots=%d: nil-field %d (%v), explicit %d (%v)", logSlots, a, ea, b, eb)
+			}
+		}
+		c.Outcome(name, f.name, r.String())
+	}}
 }
